@@ -33,7 +33,16 @@ func (r *RuleEntity) AcceptInteger(val int64) error {
 }
 
 
-func (r *RuleEntity) Execute(dc *context.DataContext) (interface{}, error, bool) {
+func (r *RuleEntity) Execute(dc *context.DataContext) (res interface{}, err error, returned bool) {
+	//a fault in any construct of the rule (condition, loop header, return expression...) must surface as an error,
+	//not as a panic which would kill the process when the rule runs in a goroutine of a concurrent model
+	defer func() {
+		if p := recover(); p != nil {
+			res, returned = nil, false
+			err = errors.New(fmt.Sprintf("rule \"%s\" executed, error: %+v", r.RuleName, p))
+		}
+	}()
+
 	v, e, b := r.RuleContent.Execute(dc, make(map[string]reflect.Value))
 	if v == reflect.ValueOf(nil) {
 		return nil, e, b
